@@ -8,6 +8,7 @@ from __future__ import annotations
 
 import contextlib
 import math
+import random
 import types
 from fractions import Fraction as F
 
@@ -315,14 +316,19 @@ def compare_result(res, ref, rtol=1e-7, skip_rel_ci=False):
             if g != w:
                 bad.append((f, g, w))
             continue
+        # rounding of the means (a few ulp of `base`) propagates into the effect absolutely; everything else is relative
+        # to the field itself or to the natural scale of the interval (the standard error)
+        ulp = 1e3 * 2.0 ** -52 * base
         if f in ("control", "treatment"):
-            tol = rtol * base
+            tol = 1e-10 * base
         elif f.startswith("effect_size"):
-            tol = rtol * max(base, abs(w))
+            tol = rtol * max(abs(w), se) + ulp
         elif f.startswith("rel_"):
-            tol = rtol * max(1.0, abs(w))
-        else:  # statistic, pvalue
-            tol = rtol * max(abs(w), base / se) + (1e-12 if f == "pvalue" else 0.0)
+            tol = rtol * max(abs(w), se / base) + ulp / base
+        elif f == "statistic":
+            tol = rtol * max(abs(w), 1.0) + ulp / se
+        else:  # pvalue: d log p / d statistic ~ -statistic in the tails
+            tol = rtol * abs(w) * (1.0 + st * st if math.isfinite(st) else 1.0) + ulp / se + 1e-12
         if abs(g - w) > tol:
             bad.append((f, g, w))
     return bad
@@ -348,3 +354,72 @@ def float_table(rng, n, cols=None, kind=None):
             v = 1e6 + r.normal(size=n) * 3 + base
         out[c] = [float(x) for x in v]
     return out
+
+
+# ----------------------------------------------------------------------------- object reuse (results depend on the arguments only)
+def reuse_history(seed, parameter):
+    """One metric object and one mutable frame: call, modify the frame IN PLACE (same object identity), call again, switch
+    to another frame and back. Every call must return exactly what a fresh metric returns for a fresh copy of the frame's
+    current contents - results are a function of the arguments, not of earlier calls. `parameter` is a solve_power
+    parameter or "analyze". Returns a list of failure strings."""
+    import numpy as np
+    import pandas as pd
+    import tea_tasting as tt
+    rng = random.Random(seed)
+    r = np.random.default_rng(seed)
+    n = rng.choice([120, 400])
+    mk = lambda mu, sd: pd.DataFrame({"variant": r.integers(0, 2, n), "x": r.normal(mu, sd, n), "c": r.normal(5, 1, n)})
+    df, other = mk(10, 2), mk(3, 1)
+    cov = rng.choice([None, "c"])
+    kw = dict(alternative=rng.choice(ALTS), use_t=rng.random() < 0.5, equal_var=rng.random() < 0.5,
+              alpha=rng.choice([0.01, 0.05, 0.1]))
+    if kw["alternative"] == "two-sided" and parameter != "analyze":
+        kw["use_t"] = False     # scipy's nct returns NaN in the far lower tail (known findings C08 / C09)
+    if parameter == "power":
+        kw.update(rel_effect_size=0.05, n_obs=(500, 2000))
+    elif parameter in ("effect_size", "rel_effect_size"):
+        kw.update(n_obs=(500, 2000))
+    elif parameter == "n_obs":
+        kw.update(rel_effect_size=(0.05, 0.1))
+    fresh = lambda: tt.Mean("x", covariate=cov, **kw)
+    metric = fresh()
+    exp = tt.Experiment(m=metric)
+
+    def call(m, e, data, via_exp):
+        if parameter == "analyze":
+            res = e.analyze(data).get("m") if via_exp else m.analyze(data, 0, 1, "variant")
+            rows = [tuple(res)]
+        else:
+            res = e.solve_power(data, parameter)["m"] if via_exp else m.solve_power(data, parameter)
+            rows = [tuple(x) for x in res]
+        return [tuple("nan" if isinstance(v, float) and v != v else v for v in row) for row in rows]
+
+    def get(res, name):
+        return res[name] if not hasattr(res, "get") else res.get(name)
+    fails = []
+    plan = ["call", "mutate", "call", "other", "call", "mutate-rows", "call"]
+    cur = df
+    for step, op in enumerate(plan):
+        if op == "mutate":
+            df["x"] = df["x"] * 3.0 + 1.0           # in place: the object passed before now has other contents
+        elif op == "mutate-rows":
+            df.loc[df.index[: n // 2], "x"] = 0.5
+        elif op == "other":
+            try:
+                call(metric, exp, other, False)
+            except Exception:  # noqa: BLE001 - only the calls on `df` are compared
+                pass
+        else:
+            via_exp = rng.random() < 0.5
+            try:
+                got = call(metric, exp, cur, via_exp)
+                want = call(fresh(), tt.Experiment(m=fresh()), cur.copy(deep=True), via_exp)
+            except Exception as e:  # noqa: BLE001
+                if "is NaN" in str(e) or "nct" in str(e):
+                    continue
+                fails.append(f"step {step}: {type(e).__name__}: {e}")
+                continue
+            if got != want:
+                fails.append(f"reused metric object, step {step} ({'Experiment' if via_exp else 'metric'}.{parameter}): "
+                             f"{got[0]} but a fresh metric on the same contents gives {want[0]}")
+    return fails
